@@ -74,7 +74,7 @@ impl Model {
                     let ttl = if cf { 1 } else { ttl };
                     self.slots[i] = match ttl {
                         0 => Slot::Expired,
-                        BIG => Slot::Big,
+                        t if t >= 59 => Slot::Big,
                         t => Slot::Left(t),
                     };
                 }
@@ -108,6 +108,12 @@ pub fn ops() -> Vec<Op> {
         v.push(Op::AddAuth(i));
         for ttl in [0u32, 1, 2, BIG] {
             v.push(Op::AddCached(i, ttl, false));
+        }
+        if i == 1 {
+            // TTLs around the refresh-time branches and the largest TTL: never expire within the horizon
+            for ttl in [59u32, 60, 61, u32::MAX] {
+                v.push(Op::AddCached(i, ttl, false));
+            }
         }
         v.push(Op::AddCached(i, BIG, true));
         v.push(Op::Remove(i));
@@ -300,7 +306,7 @@ pub fn real_traces() -> Vec<Vec<Op>> {
 
 pub fn run(ctx: &Ctx) {
     let thorough = ctx.tier == crate::engine::Tier::Thorough;
-    ctx.set_rule("explicit-state search to the fixpoint over 23 operations (add-authoritative, add-cached with TTL 0/1/2/1000 or the cache-flush bit, remove, clear, tick 1 s) on three records at svc.local and x.svc.local; states deduplicated by (per record: absent / authoritative / cached with 1 or 2 s left / cached long / expired; owners touched since the last clear); every transition out of every state is executed on a fresh real store (virtual clock through the verif_advance seam) and observed immediately and after 1, 2 and 3 further ticks (remaining lifetimes are hidden state a single query cannot show); all 12 (name, filter) queries are judged against the reference store at each observation. thorough: additionally every history of length <= 5 without deduplication. The seam is validated by traces replayed with real sleeps. non-trivial = state holds a cached record");
+    ctx.set_rule("explicit-state search to the fixpoint over 27 operations (add-authoritative, add-cached with TTL 0/1/2/1000 or the cache-flush bit, remove, clear, tick 1 s) on three records at svc.local and x.svc.local; states deduplicated by (per record: absent / authoritative / cached with 1 or 2 s left / cached long / expired; owners touched since the last clear); every transition out of every state is executed on a fresh real store (virtual clock through the verif_advance seam) and observed immediately and after 1, 2 and 3 further ticks (remaining lifetimes are hidden state a single query cannot show); all 12 (name, filter) queries are judged against the reference store at each observation. thorough: additionally every history of length <= 5 without deduplication. The seam is validated by traces replayed with real sleeps. non-trivial = state holds a cached record");
     ctx.assume("clock seam: verif_advance(1) moves stored deadlines one second into the past; real time spent on a path is microseconds, every comparison is a whole second away from a boundary except exact expiry, which is decided the same way for any real delay >= 0; paths slower than 250 ms are re-run and a violation is reported only if it reproduces");
     ctx.assume("completeness is demanded at a record's own name; subdomain queries are judged for soundness only");
     let w = world();
@@ -338,7 +344,7 @@ pub fn run(ctx: &Ctx) {
             }
         }
     });
-    ctx.space(&format!("fixpoint search: {} distinct states, 23 transitions out of each executed on the real store and observed after 0..=3 further ticks, 12 queries per observation", states.len()), states.len() as u64 * 93, "complete (fixpoint reached)");
+    ctx.space(&format!("fixpoint search: {} distinct states, 27 transitions out of each executed on the real store and observed after 0..=3 further ticks, 12 queries per observation", states.len()), states.len() as u64 * 109, "complete (fixpoint reached)");
     ctx.sample(json!({"kind": "history", "history": states[states.len() / 2].1}));
     ctx.sample(json!({"kind": "history", "history": [Op::AddCached(1, 2, false), Op::Tick, Op::AddCached(1, 2, false), Op::Tick]}));
     if thorough {
@@ -368,7 +374,7 @@ pub fn run(ctx: &Ctx) {
             }
             total.fetch_add(cnt, std::sync::atomic::Ordering::Relaxed);
         });
-        ctx.space("every history of exactly 5 operations over the 23-operation menu, without deduplication (shorter histories are their prefixes' states, covered above)", total.load(std::sync::atomic::Ordering::Relaxed), "complete");
+        ctx.space("every history of exactly 5 operations over the 27-operation menu, without deduplication (shorter histories are their prefixes' states, covered above)", total.load(std::sync::atomic::Ordering::Relaxed), "complete");
     }
     // real-clock validation of the seam
     let traces = real_traces();
